@@ -25,6 +25,7 @@ func init() {
 	registry["C14"] = func(c *Ctx) { genCore(c, "C14") }
 	registry["C06core"] = func(c *Ctx) { genCore(c, "C06") }
 	registry["C12core"] = func(c *Ctx) { genCore(c, "C12") }
+	registry["C15core"] = func(c *Ctx) { genCore(c, "C15") }
 	registry["CORESRC"] = coreOne
 }
 
@@ -245,17 +246,17 @@ func genCore(c *Ctx, mode string) {
 	if mode == "C07" {
 		repeatRaiseProbes(c)
 	}
-	n := map[string]int{"C03": 2000, "C07": 300, "C08": 800, "C14": 1500, "C06": 1200, "C12": 1500}[mode]
+	n := map[string]int{"C03": 2000, "C07": 300, "C08": 800, "C14": 1500, "C06": 1200, "C12": 1500, "C15": 1500}[mode]
 	if c.Thorough() {
 		n *= 10
 	}
-	bias := map[string]byte{"C03": 'F', "C07": 0, "C08": 'E', "C14": 'T', "C06": 'K', "C12": 'C'}[mode]
+	bias := map[string]byte{"C03": 'F', "C07": 0, "C08": 'E', "C14": 'T', "C06": 'K', "C12": 'C', "C15": 'D'}[mode]
 	for i := 0; i < n; i++ {
 		root, feat := genCoreProgram(c.Rng, 2+c.Rng.Intn(2), bias)
 		tags := append(featTags(feat), "plain")
 		src := root.text()
 		switch mode {
-		case "C03", "C14", "C06", "C12":
+		case "C03", "C14", "C06", "C12", "C15":
 			if !c.Mine() {
 				continue
 			}
